@@ -312,11 +312,14 @@ def run_property(ctx, profile, n, projection, tag_prefixes, crash_is_violation=T
     projs = ["all", projection] if projection != "all" else ["all"]
     corpus = [h for h in load_corpus("seq") if (corpus_filter is None or corpus_filter(h))]
     results, hist, traces, crashes = {}, {}, {}, []
+    judged_dirs = []
     if corpus:
         rr = run_replay(ctx, b, corpus, name="corpus")
         r1, h1, t1 = judge(ctx, b, rr["dirs"], projs)
         results.update(r1); hist.update(h1); traces.update(t1); crashes += rr["crashes"]
+        judged_dirs += list(rr["dirs"])
     g = run_generated(ctx, b, profile, n, ctx.seed + seed_offset)
+    judged_dirs += list(g["dirs"])
     r2, h2, t2 = judge(ctx, b, g["dirs"], projs)
     results.update(r2); hist.update(h2); traces.update(t2); crashes += g["crashes"]
 
@@ -385,6 +388,12 @@ def run_property(ctx, profile, n, projection, tag_prefixes, crash_is_violation=T
     if traces and len(ctx.coverage["samples"]) < 2:
         hid = sorted(traces)[0]
         ctx.coverage["samples"].append({"history_id": hid, "trace_head": traces[hid][:14]})
+    # extraction + driver vs the Gallina definitions: a sample of the judged traces is evaluated inside Coq (lib/coqeval.py)
+    try:
+        from . import coqeval
+        coqeval.hook(ctx, "T1-seqdiff", coqeval.seq_sample, judged_dirs, projection=projection, driver=b["driver"])
+    except Exception as ex:  # noqa
+        ctx.note("coq/driver tie T1-seqdiff not run: %r" % (ex,))
     return dict(ok_build=True, mismatches=n_mis, pred_failures=n_pred, crashes=len(crashes))
 
 
